@@ -31,7 +31,8 @@ OBLIGATIONS = {"poly:star": 20, "poly:selfintersecting": 20, "poly:lattice": 20,
                "pt:outside-bbox": 100, "pt:level-with-vertex": 200, "meta": 100,
                "cells_inside_polygon": 10, "inside-buffer": 50, "options": 50,
                "poly:far-from-origin": 20, "poly:far-open>3": 10,
-               "cells:grid-moved-after-use": 20, "cells:polygon-at-one-end": 3}
+               "cells:grid-moved-after-use": 20, "cells:polygon-at-one-end": 3,
+               "cells:big-grid": 4}
 
 
 def P():
@@ -284,7 +285,47 @@ def run_cells_case(ctx, case):
     ctx.nontrivial(poly, nr, nc, xll, yll, csz)
 
 
+def run_big_grid(ctx):
+    """grids of more than a million cells (a 1000 x 1250 raster and a 2^20 + 1 cell one):
+    small non-convex polygons placed at the start, across cell number 10^6 / 2^20 and at
+    the very end of the numbering; expected cells from the exact oracle on the cells of
+    the polygon's bounding box (every other centre is outside)"""
+    from hydrodiy.gis.grid import Grid
+    shape = np.array([[0.2, 0.1], [6.3, 0.4], [6.1, 4.2], [3.1, 1.7], [0.4, 4.4]])
+    for (nr, nc) in ((1000, 1250), (1025, 1025)):
+        gr = Grid("big", nc, nr, cellsize=1.0, xllcorner=0.0, yllcorner=0.0)
+        marks = [0, 10 ** 6, 2 ** 20, nr * nc - 1 - 7 * nc]
+        for mk in marks:
+            if mk >= nr * nc:
+                continue
+            r0, k0 = divmod(mk, nc)
+            # lower-left corner of the shape a little inside the cell block around mk
+            ox = float(min(max(k0 - 3, 0), nc - 8))
+            oy = float(min(max(nr - 1 - r0 - 2, 0), nr - 6))
+            poly = shape + np.array([ox, oy])
+            ctx.evaluated()
+            ctx.tag("cells:big-grid")
+            ctx.api("cells_inside_polygon")
+            df = gr.cells_inside_polygon(poly.copy())
+            got = sorted(int(c) for c in df["cell"].values)
+            exp = []
+            for k in range(int(ox), int(ox) + 8):
+                for j in range(int(oy), int(oy) + 6):
+                    cx, cy = k + 0.5, j + 0.5
+                    if dist_to_edges(poly, np.array([[cx, cy]]))[0] > 1e-6 and \
+                            parity_exact(poly, cx, cy):
+                        exp.append((nr - 1 - j) * nc + k)
+            exp = sorted(exp)
+            case = {"kind": "bigcells", "nrows": nr, "ncols": nc, "mark": mk}
+            ctx.check("cells_inside.big-grid", got == exp, "cells_inside_polygon|set|big-grid",
+                      case, lambda: {"got": got[:12], "expected": exp[:12],
+                                     "n_got": len(got), "n_expected": len(exp)})
+            ctx.nontrivial("big", nr, nc, mk)
+
+
 def run(ctx):
+    if ctx.shard == 1 % ctx.nshards:
+        run_big_grid(ctx)
     rng = ctx.rng(1)
     nrep = 60 if ctx.tier == "quick" else 4000
     for it0 in range(nrep):
@@ -322,6 +363,8 @@ def run(ctx):
 
 
 def replay(ctx, case):
+    if case["kind"] == "bigcells":
+        return run_big_grid(ctx)
     if case["kind"] == "pip":
         run_case(ctx, case)
     else:
